@@ -703,7 +703,7 @@ def run(ctx):
             continue
         ents, res = run_fragment(ctx, pool, fc, per_rand, requests, extra_tries=6)
         # further random layouts of the same fragment: parse tree and query must not depend on them (both parsers)
-        layout_groups.append(layout_group(ctx, frag, 1 + ctx.n(2, 4)))
+        layout_groups.append(layout_group(ctx, frag, 1 + ctx.n(2, 3)))
         # 3. layout / label independence on the implementation itself (relational clause of the property); the renamed and
         # re-laid-out fragment is also a case of its own (oracle, tree path and text path of the model)
         if i % 4 == 0:
